@@ -76,27 +76,22 @@ def run(repo: Repo) -> Result:
     res.analysed["relation_sites"] = n1
     res.analysed["separator_sites"] = n2
     # R2, by role: the two places where the library itself cuts names must be visible to the lint
-    roles = []
     gpm = repo.find_func(TYPES_MOD, "get_parent_modules")
+    gpm_reach: set[str] = set()
     if gpm is None:
         res.undecide("C14.R2", f"{TYPES_MOD}::get_parent_modules", "the public function computing the ancestors of a name was not found")
     else:
-        roles.append(("ancestors of a name (get_parent_modules)", [gpm]))
+        gpm_reach = {f.fq for f in reachable_funcs(repo, [gpm], byname=False)} | {gpm.fq}
+        _role(repo, res, sites, "ancestors of a name (get_parent_modules)", gpm, gpm_reach)
+    # level flattening happens somewhere between the public entry point (keyword `level_limit`) and the graph that is built
     g = repo.classes.get(f"{NXGRAPH}.NetworkxGraph") or next((c for c in repo.classes.values() if c.name == "NetworkxGraph"), None)
-    init = g.methods.get("__init__") if g is not None else None
-    if init is None:
-        res.undecide("C14.R2", f"{NXGRAPH}::NetworkxGraph.__init__", "the constructor of the public graph class was not found")
+    roots = [g.methods["__init__"]] if g is not None and "__init__" in g.methods else []
+    roots += [f for f in repo.all_functions() if f.module.name == "pytestarch.pytestarch" and f.cls is None and f.outer is None and f.name.startswith("get_evaluable_architecture")]
+    if not roots:
+        res.undecide("C14.R2", f"{NXGRAPH}::NetworkxGraph.__init__", "neither the constructor of the public graph class nor the public entry points were found")
     else:
-        roles.append(("level flattening (reachable from NetworkxGraph.__init__)", [init]))
-    for role, roots in roles:
-        reach = {f.fq for f in reachable_funcs(repo, roots, byname=False)}
-        # nested callables of reachable functions belong to them
-        cuts = [s for s in sites if s.name_typed and s.op in CUT_OPS and _top(s.fi).fq in reach | {r.fq for r in roots}]
-        if cuts:
-            bad = [s for s in cuts if s.verdict == "unsafe"]
-            res.add("C14.R2", f"{roots[0].relpath}::{roots[0].qualname}::{role}", not bad, f"{len(cuts)} cut(s) of names found by role, all at '.'" if not bad else f"{norm(bad[0].node, 60)}: {bad[0].why}", where(roots[0], roots[0].node), kind="structural")
-        else:
-            res.undecide("C14.R2", f"{roots[0].relpath}::{roots[0].qualname}::{role}", "no operation that cuts a name (split / partition / find / join / character loop / slice) was recognised in the functions of this role")
+        reach = ({f.fq for f in reachable_funcs(repo, roots, byname=False)} | {r.fq for r in roots}) - gpm_reach
+        _role(repo, res, sites, "level flattening (between get_evaluable_architecture / NetworkxGraph.__init__ and the graph)", roots[0], reach)
     # R3: hierarchy-based sub-module sets (search model, owned by C01)
     tmp = Result("C01")
     try:
@@ -114,6 +109,17 @@ def run(repo: Repo) -> Result:
     except AnalysisError as e:
         res.undecide("C14.R3", "search model", f"the search model (rules/c01.run_search) gave no verdict: {e}")
     return res
+
+
+def _role(repo: Repo, res: Result, sites, role: str, anchor, reach: set[str]) -> None:
+    # nested callables of reachable functions belong to them
+    cuts = [s for s in sites if s.name_typed and s.op in CUT_OPS and _top(s.fi).fq in reach]
+    key = f"{anchor.relpath}::{anchor.qualname}::{role}"
+    if cuts:
+        bad = [s for s in cuts if s.verdict == "unsafe"]
+        res.add("C14.R2", key, not bad, f"{len(cuts)} cut(s) of names found by role, all at '.'" if not bad else f"{norm(bad[0].node, 60)}: {bad[0].why}", where(anchor, anchor.node), kind="structural")
+    else:
+        res.undecide("C14.R2", key, "no operation that cuts a name (split / partition / find / join / character loop / slice) was recognised in the functions of this role")
 
 
 def _top(fi):
